@@ -31,12 +31,20 @@ class Item:
     return f'Item({self.key},#{self.ident})'
 
 
+class IntItem(int):
+  """a plain int (so equal pushes compare `==`), with the `.key` the harness reads"""
+  @property
+  def key(self):
+    return int(self)
+
+
 def gen_history(rng, max_len):
   size = rng.choice([0, 1, 1, 2, 3, 4, 6])
   nkeys = rng.randint(1, 5)
   spread = rng.choice([1, 2, 3, 10, 1000])      # small spread = heavy ties
   n = rng.randint(0, max_len)
-  ops = [('new', size)]
+  # items: objects ordered by key only (distinct objects can tie), or plain ints (equal pushes are `==`)
+  ops = [('new', size, rng.choice(['obj', 'obj', 'int']))]
   for i in range(n):
     r = rng.random()
     if r < 0.15:
@@ -56,10 +64,11 @@ def run_real(ops):
   for op in ops:
     if op[0] == 'new':
       size = op[1]
+      kind = op[2] if len(op) > 2 else 'obj'
       h = heapdict.HeapDict(size)
       pushed = {}
     elif op[0] == 'push':
-      it = Item(op[2], op[3])
+      it = Item(op[2], op[3]) if kind == 'obj' else IntItem(op[2])
       h.push(op[1], it)
       pushed.setdefault(op[1], []).append(it)
     else:
@@ -76,7 +85,7 @@ def run_real(ops):
 def wire(ops):
   lines = []
   for op in ops:
-    lines.append(' '.join(str(x) for x in op))
+    lines.append(' '.join(str(x) for x in (op[:2] if op[0] == 'new' else op)))
   return lines
 
 
